@@ -17,9 +17,9 @@ RULE = ('case = (configuration, permutation of its Set* calls) or (DE2 / ensembl
 ASSUMPTIONS = ['the seed is set once before configuring and once more before stepping', 'ensemble members are Nelder-Mead / Powell (no random draws while running)',
                'maps return results by index (the documented map contract); what varies is evaluation and completion order']
 CLASSES = {
-    'permutations': {'quick': 80, 'thorough': 1200},
-    'de2_maps': {'quick': 40, 'thorough': 500},
-    'ensemble_maps': {'quick': 24, 'thorough': 300},
+    'permutations': {'quick': 160, 'thorough': 2400},
+    'de2_maps': {'quick': 80, 'thorough': 1000},
+    'ensemble_maps': {'quick': 80, 'thorough': 1200},
 }
 MIN_EVENTS = {'quick': {'assert:perm': 300, 'assert:map': 150, 'nonidentity_completion_orders': 30}}
 CASE_TIMEOUT = 300
@@ -218,9 +218,13 @@ def run_ensemble_maps(rng, obs):
     dim = rng.randint(1, 3)
     which = rng.choice(['lattice', 'buckshot'])
     nested = rng.choice(['nm', 'powell'])
-    spec = K.gen_cost(rng, dim, ['sphere', 'illquad', 'rosen', 'abs'])
+    # flat-bottomed / piecewise-constant objectives make members tie exactly (at different iterations): the reduction to the best
+    # member must then not depend on arrival order or on when the reduction is made
+    spec = K.gen_cost(rng, dim, ['sphere', 'illquad', 'rosen', 'abs', 'plateau', 'plateau', 'step'])
     raw = K.make_cost(spec)
     box = K.gen_box(rng, dim, None, shape='finite')
+    if spec[0] == 'plateau' and rng.random() < 0.7:      # a wide box around the plateau so that several members reach the bottom
+        box = {'lo': [c - 6.0 for c in spec[1]], 'hi': [c + 6.0 for c in spec[1]], 'shape': 'finite'}
     npts = rng.choice([2, 3, 4, 6])
     maxiter = rng.choice([3, 8, 20])
     obs.desc = {'ensemble': which, 'nested': nested, 'dim': dim, 'cost': spec, 'box': box, 'npts': npts, 'maxiter': maxiter}
